@@ -65,7 +65,7 @@ func (c *Ctx) gateClosure(base *ssa.Function) map[*ssa.Function]bool {
 			if b, ok := fn.Signature.Results().At(0).Type().Underlying().(*types.Basic); !ok || b.Kind() != types.Bool {
 				continue
 			}
-			conds := ifsOn(fn, isGateCall)
+			conds := ifsOnV(fn, isGateCall)
 			if len(conds) == 0 {
 				continue
 			}
@@ -1753,7 +1753,7 @@ func ruleF7h(c *Ctx) *RuleResult {
 			n++
 			key := fmt.Sprintf("%s|too-late#%d", FuncName(fn), n)
 			what := "the `too late` error is returned only for a playlist without ENDLIST"
-			conds := ifsOn(fn, func(v ssa.Value) bool {
+			conds := ifsOnV(fn, func(v ssa.Value) bool {
 				f, _ := loadedField(v)
 				return f == endF
 			})
